@@ -473,6 +473,22 @@ func (e *Engine) initIntrinsics() {
 		h := p.eng.findFunc("golang.org/x/telemetry/internal/vrt.DateREFind")
 		return p.callFunction(h, []Value{args[1]}, nil)
 	}
+	// math/rand: the global source is not initialised under the engine; Intn(n) is an
+	// arbitrary value in [0,n).
+	randIntn := func(p *Path, fn *ssa.Function, args []Value) Value {
+		n := args[len(args)-1].(*Term)
+		if !n.IsConst() || n.C == 0 {
+			v := p.ndInt("rand", n.S.W)
+			p.addPC(p.tt.Ult(v, n))
+			return v
+		}
+		// value = raw % n: the interval analysis then knows the range
+		return p.tt.URem(p.ndInt("rand", n.S.W), n)
+	}
+	in["math/rand.Intn"] = randIntn
+	in["math/rand.Int63n"] = randIntn
+	in["math/rand.Int31n"] = randIntn
+	in["math/rand/v2.IntN"] = randIntn
 	in["os.Getenv"] = func(p *Path, fn *ssa.Function, args []Value) Value { return &Str{} }
 	in["os.Exit"] = func(p *Path, fn *ssa.Function, args []Value) Value {
 		c, _ := p.cint(args[0].(*Term))
@@ -655,6 +671,10 @@ func (p *Path) fmtScalar(spec string, t *Term, typ types.Type, lenient bool) []*
 			r[i] = p.tt.Const(8, uint64(s[i]))
 		}
 		return r
+	}
+	if t.S.K == SBV && !t.IsConst() && t.Hi <= 9 && (spec == "%d" || spec == "%v") {
+		// a single decimal digit: one symbolic byte, no case split
+		return []*Term{p.tt.Add(p.tt.Const(8, '0'), p.tt.Extract(t, 7, 0))}
 	}
 	if t.S.K == SBV && !t.IsConst() {
 		if lenient {
